@@ -16,7 +16,7 @@ RULE = (
     "well-formed part: ept_map replies encoded by the independent NDR64 encoder for tower lists of 0..6 towers whose lengths cover every residue mod 8 in every list position "
     "(lists <=2 (quick) / <=3 (thorough) towers: full product over 8 residues; longer lists: residues cycled), floors from {UUID, RPC-CO, TCP(distinct port per tower), UDP, IP, named pipe, "
     "unknown 0x55}, TCP floor in tower {none,0,1,last} at floor position {3,0,last}, status in {0,0x16C9A0D6,1,2^32-1}, handle {null,set}, response alloc_hint {exact, 0, larger}; each delivered through the whole client stack "
-    "(sync, and async on the virtual loop) by the reference DC: the second connection must go to the port of the first tower that has a TCP floor; status!=0 or no TCP floor => error and "
+    "(sync, and async on the virtual loop) by the reference DC; 19 spellings of the server argument (DNS names, trailing dot, IPv4 / IPv6 literals, digits-only labels) x 6 announced ports x 2 TCP floor positions: connections go to exactly (server,135) then (server, announced port): the second connection must go to the port of the first tower that has a TCP floor; status!=0 or no TCP floor => error and "
     "no second connection; EptMapResult.unpack must return all towers (unknown floors preserved). adversarial part: every prefix of 20 replies, the count fields (num_towers, max, actual, "
     "per-tower max/length/floor count) substituted by {0,1,2,actual+-1,2^16,2^32,2^40,2^63,2^64-1} singly and in pairs, all-zero replies of length 0..64: return or raise within "
     "50000+100*len line events and 1MiB+64*len allocation (direct) and through the stack (single substitutions). state = one delivered reply (environment answer); transition = one client run."
